@@ -771,6 +771,24 @@ pub fn c12(rng: &mut Rng, thorough: bool, idx: u64) -> Spec {
                     let t = p.tag();
                     p.simple(format!("COMMIT /* {} */", t));
                 }
+                5 if rng.chance(0.5) => {
+                    // SET (not LOCAL) of a tracked parameter inside a transaction that is rolled
+                    // back or committed: the value the server reports at the end is the one
+                    // that follows the client
+                    let t = p.tag();
+                    p.simple(format!("BEGIN /* {} */", t));
+                    let t = p.tag();
+                    if rng.chance(0.5) {
+                        p.simple(format!("SET TimeZone TO {} /* {} */", sql_quote(*rng.pick(&TZS)), t));
+                    } else {
+                        let v = rng.pick(&names).to_string();
+                        p.simple(format!("SET application_name TO {} /* {} */", sql_quote(&v), t));
+                    }
+                    let sql = p.select(1, 0, "");
+                    p.simple(sql);
+                    let t = p.tag();
+                    p.simple(format!("{} /* {} */", rng.pick(&["ROLLBACK", "COMMIT"]), t));
+                }
                 4 if session_timeout => {
                     // sits in an open transaction until the pooler takes the server away
                     let t = p.tag();
